@@ -22,7 +22,8 @@ META = {
     "assumptions": [],
     "trusted_base": ["sa/ref_utf8.py: the well-formed byte ranges of RFC 3629 / Unicode table 3-7", "sa/core/feval.py evaluator"],
     "technique": "static analysis: automaton extraction from LLVM IR by finite-domain evaluation of the transition function, product "
-                 "with a reference DFA, exact lane-wise solution of the fast-path guard predicates",
+                 "with a reference DFA, exact lane-wise solution of the fast-path guard predicates, exhaustive (state x byte) evaluation "
+                 "of the byte-wise entry points against the extracted automaton, in two configurations (plain char signed / unsigned)",
 }
 
 
